@@ -13,7 +13,7 @@ simulation at a time.  The oracles therefore run their cases in worker processes
   result is whatever the function returns (plain data again);
 * `soft_s`: tasks that would start later than this are not run (`skipped`); `deadline_s` bounds the
   whole map: workers still busy then are killed and their tasks reported as `timeout` (the
-  simulation has its own watchdogs, so one build cannot hang for more than ~30 s of wall clock);
+  simulation has its own watchdogs, so one build cannot hang for more than ~120 s of wall clock);
 * `VERIF_REPO` and the other environment variables of the check reach the workers unchanged.
 """
 
@@ -156,6 +156,21 @@ def run(module: str, func: str, tasks: list, *, deadline_s: float, soft_s: float
             except subprocess.TimeoutExpired:
                 pass
 
+
+
+def run_retrying(module: str, func: str, tasks: list, *, deadline_s: float, soft_s: float | None = None,
+                 workers: int | None = None, retry_deadline_s: float = 400.0, max_retries: int = 4):
+    """Like `run`, but a task whose worker was killed at the deadline (`timeout`) is run once more,
+    alone, with a generous deadline: a case that only timed out because the machine was busy ends
+    `ok` then; a case that hangs deterministically is reported as `timeout` again."""
+    late = []
+    for status, task, res in run(module, func, tasks, deadline_s=deadline_s, soft_s=soft_s, workers=workers):
+        if status == "timeout" and len(late) < max_retries:
+            late.append(task)
+        else:
+            yield status, task, res
+    for task in late:
+        yield from run(module, func, [task], deadline_s=retry_deadline_s, workers=1)
 
 if __name__ == "__main__" and "--worker" in sys.argv:
     _worker_main()
